@@ -209,7 +209,10 @@ int main( int argc, char** argv )
                         HP::Guard gs( nullptr ); gs.guard_ref() = &td->hazards_[b];
                         g.copy( gs );
                         g.release(); gs.release();
-                        M.slot_val[t][a] = v; M.slot_since[t][a] = logsize(); M.slot_valid[t][a] = valid && a != b ? valid : ( a == b ? valid : false );
+                        // a copy is a valid guard of its own only in scan order (source slot below destination): a pass that is
+                        // already running reads the slots in ascending order and would otherwise miss the pointer once the
+                        // source is released (LV.Properties.Properties_C01: C01_copy_down_unsafe)
+                        M.slot_val[t][a] = v; M.slot_since[t][a] = logsize(); M.slot_valid[t][a] = valid && b <= a;
                         vcase::emitf( "copied" );
                         break; }
                     }
